@@ -13,7 +13,7 @@
 (* Amounts are small native integers (one unit each); the real-node world  *)
 (* W1u uses the same price table scaled by 10^18.                          *)
 (***************************************************************************)
-EXTENDS PropsMarkets, Ledger
+EXTENDS PropsMarkets, Coins
 
 CONSTANTS MaxBlocks,      \* blocks per behaviour
           MaxTxPerBlock,
@@ -158,7 +158,22 @@ PricedTxs ==
 WrongSignerTxs ==   \* a3 signs a transaction that names a1's money: the signer is the sender, so a3 pays
    {}
 
-TxMenu == (IF "Send" \in Menu THEN SendTxs ELSE {})
+\* the coin registry (tokens): o1 is rich enough to create tickers; a1 and a2 try what only the ticker's owner may do
+MaxSupply == 40
+Tok(type, from, args) == MkTx(type, from, <<from>>, FALSE, "next", args, "")
+NewTok(sym, n, amt, mx, m, b) == [symbol |-> sym, symbolLen |-> n, amount |-> amt, max |-> mx, mintable |-> m, burnable |-> b]
+TokenTxs ==
+   {Tok("CreateToken", "o1", NewTok("TOK", 3, 10, 20, TRUE, TRUE)), Tok("CreateToken", "o1", NewTok("TOKENS", 6, 5, 5, FALSE, FALSE)),
+    Tok("CreateToken", "a1", NewTok("TOK", 3, 1, 1, FALSE, TRUE)), Tok("CreateToken", "o1", NewTok("BADSUP", 6, 30, 20, TRUE, TRUE)),
+    Tok("CreateToken", "o1", NewTok("FIXED", 5, 5, 10, FALSE, TRUE)), Tok("CreateToken", "o1", NewTok("HUGE", 4, 1, 41, TRUE, TRUE)),
+    Tok("RecreateToken", "o1", NewTok("TOK", 3, 7, 30, TRUE, FALSE)), Tok("RecreateToken", "a1", NewTok("TOK", 3, 7, 30, TRUE, FALSE)),
+    Tok("RecreateToken", "o1", NewTok("NONE", 4, 7, 30, TRUE, FALSE)),
+    Tok("EditCoinOwner", "o1", [symbol |-> "TOK", newOwner |-> "a1"]), Tok("EditCoinOwner", "a2", [symbol |-> "TOK", newOwner |-> "a2"]),
+    Tok("MintToken", "o1", [coin |-> "1", value |-> 5]), Tok("MintToken", "o1", [coin |-> "1", value |-> 11]), Tok("MintToken", "a1", [coin |-> "1", value |-> 1]),
+    Tok("MintToken", "o1", [coin |-> "2", value |-> 1]), Tok("MintToken", "o1", [coin |-> "9", value |-> 1]),
+    Tok("BurnToken", "o1", [coin |-> "1", value |-> 4]), Tok("BurnToken", "o1", [coin |-> "1", value |-> 10]), Tok("BurnToken", "a1", [coin |-> "1", value |-> 1]),
+    Tok("Send", "o1", [coin |-> "1", to |-> "a1", value |-> 2])}
+TxMenu == (IF "Tokens" \in Menu THEN TokenTxs ELSE {}) \cup (IF "Send" \in Menu THEN SendTxs ELSE {})
      \cup (IF "Multisend" \in Menu THEN MultisendTxs ELSE {})
      \cup (IF "Multisig" \in Menu THEN CreateMsTxs \cup MsSpendTxs \cup FundMsTxs \cup EditMsTxs ELSE {})
      \cup (IF "Lock" \in Menu THEN LockTxs ELSE {})
@@ -176,7 +191,7 @@ TxStep(tx) == [op |-> "tx", id |-> tx.id, type |-> tx.type, from |-> tx.from, si
 
 Deliver(tx) ==
    /\ phase = "begun" /\ cnt.inBlock < MaxTxPerBlock /\ cnt.total < MaxTxTotal
-   /\ LET r == RunTx(st, tx, st.h, Chain)
+   /\ LET r == RunTxC(st, tx, st.h, GenesisCfg, MaxSupply)
       IN /\ st' = r.st
          /\ ev' = [Ev("DeliverTx", st.h) EXCEPT !.resp = [code |-> r.code, gas |-> 0, tags |-> r.tags, log |-> ""], !.check = r.code] @@ [tx |-> tx]
          /\ hist' = [hist EXCEPT !.accepted = IF r.code = 0 THEN @ \cup {tx.hash} ELSE @,
@@ -203,9 +218,36 @@ P_C26 == [][C26_Step]_mvars
 P_C16 == [][C16_Step]_mvars
 P_C21 == [][C21_Step]_mvars
 P_C27 == [][C27_Step]_mvars
+P_C22 == [][C22_Step]_mvars
 TypeOK == /\ phase \in {"idle", "begun", "ended"}
           /\ C02_State(st)
           /\ CustomConserved(st)
+
+\* vacuity guard of the token configuration (ACTION_CONSTRAINT ReachStep, see MCStaking)
+ReachReg == 9
+ASSUME TLCSet(ReachReg, {})
+Mark(name, cond) == IF cond /\ name \notin TLCGet(ReachReg) THEN PrintT("REACH " \o name) /\ TLCSet(ReachReg, TLCGet(ReachReg) \cup {name}) ELSE TRUE
+OkTx(t) == Delivered /\ Code = 0 /\ Tx.type = t
+RejTx(t, c) == Delivered /\ Code = c /\ Tx.type = t
+ReachStep ==
+   /\ Mark("CreateOk", OkTx("CreateToken"))
+   /\ Mark("CreateDuplicate", RejTx("CreateToken", CoinAlreadyExists))
+   /\ Mark("CreateBadSupply", RejTx("CreateToken", WrongCoinSupply))
+   /\ Mark("RecreateOk", OkTx("RecreateToken"))
+   /\ Mark("RecreateByOther", RejTx("RecreateToken", IsNotOwnerOfCoin))
+   /\ Mark("RecreateUnknown", RejTx("RecreateToken", CoinNotExists))
+   /\ Mark("OwnerChanged", OkTx("EditCoinOwner"))
+   /\ Mark("OwnerChangeByOther", RejTx("EditCoinOwner", IsNotOwnerOfCoin))
+   /\ Mark("RecreateByNewOwner", OkTx("RecreateToken") /\ Tx.sender = "a1")
+   /\ Mark("MintOk", OkTx("MintToken"))
+   /\ Mark("MintOverMax", RejTx("MintToken", WrongCoinEmission) /\ Tx.sender = "o1" /\ Arg("value") = 11)
+   /\ Mark("MintByOther", RejTx("MintToken", IsNotOwnerOfCoin) /\ Tx.sender = "a1")
+   /\ Mark("MintArchivedVersion", RejTx("MintToken", IsNotOwnerOfCoin) /\ Arg("coin") \in DOMAIN st.coins /\ st.coins[Arg("coin")].ver # 0)
+   /\ Mark("MintNotMintable", RejTx("MintToken", CoinNotMintable))
+   /\ Mark("BurnOk", OkTx("BurnToken"))
+   /\ Mark("BurnByHolder", OkTx("BurnToken") /\ Tx.sender = "a1")
+   /\ Mark("BurnBelowMinimum", RejTx("BurnToken", WrongCoinEmission))
+   /\ Mark("BurnNotBurnable", RejTx("BurnToken", CoinNotBurnable))
 
 \* scenario dump: printed for every state at a block boundary of the last block
 Dump == (phase = "idle" /\ cnt.blocks = MaxBlocks) => PrintT("SCN " \o ToJson(scn))
